@@ -423,6 +423,38 @@ fn fmt_one(o: &mut Obs, x: &[u8], rep: usize, case: &str) {
             o.viol("C15", &format!("upperhex:{ty}"), case, &format!("{{:X}} of {:?} printed {ux}", x));
         }
     }
+    // whatever format parameters the caller passes, the output must stay a literal of the contents
+    {
+        #[derive(Debug)]
+        #[allow(dead_code)]
+        struct Wrap {
+            b: Bytes,
+        }
+        let w = Wrap { b: b.clone() };
+        let variants = [format!("{:12?}", b), format!("{:.0?}", b), format!("{:>9.2?}", b), format!("{:<4?}", m), format!("{:^7?}", m), format!("{:08?}", b)];
+        for (vi, out) in variants.iter().enumerate() {
+            o.add("formatted", 1);
+            if parse_byte_literal(out).as_deref() != Some(x) {
+                o.viol("C15", &format!("debug-with-format-parameters:{vi}"), case, &format!("Debug with width/precision (variant {vi}) of {:?} printed {out}", x));
+            }
+        }
+        // a derived Debug forwards the parameters to the field
+        let outer = format!("{:6?}", w);
+        o.add("formatted", 1);
+        let inner = outer.strip_prefix("Wrap { b: ").and_then(|r| r.strip_suffix(" }"));
+        if inner.and_then(parse_byte_literal).as_deref() != Some(x) {
+            o.viol("C15", "debug-inside-derived-struct", case, &format!("{{:6?}} of a struct holding {:?} printed {outer}", x));
+        }
+        let hx = [format!("{:10x}", b), format!("{:#X}", m)];
+        o.add("formatted", 2);
+        if parse_hex(hx[0].trim(), false).as_deref() != Some(x) && !x.is_empty() {
+            // width handling of hex output is not specified by the property; only the digits are checked
+            let digits: String = hx[0].chars().filter(|c| c.is_ascii_hexdigit()).collect();
+            if parse_hex(&digits, false).as_deref() != Some(x) {
+                o.viol("C15", "lowerhex-with-width", case, &format!("{{:10x}} of {:?} printed {}", x, hx[0]));
+            }
+        }
+    }
     // alternate / padded formatting flags must not change the digits
     if x.len() <= 2 {
         let alt = format!("{:#?}", b);
